@@ -168,7 +168,8 @@ def fparse(s):
 def feval(e, env):
     k = e[0]
     if k == "num":
-        return float(e[1].lower().replace("d", "e"))
+        # a literal without point and exponent is a Fortran INTEGER: like C, INTEGER / INTEGER truncates
+        return int(e[1]) if e[1].isdigit() else float(e[1].lower().replace("d", "e"))
     if k == "var":
         return env[e[1]]
     if k == "abund":
@@ -176,14 +177,16 @@ def feval(e, env):
     if k == "neg":
         return -feval(e[1], env)
     if k == "pow":
-        return math.pow(feval(e[1], env), feval(e[2], env))
+        return math.pow(feval(e[1], env), feval(e[2], env))    # always a REAL power (what the translation to pow() assumes)
     if k == "call":
-        a = [feval(x, env) for x in e[2]]
+        a = [float(feval(x, env)) for x in e[2]]
         f = {"dexp": "exp"}.get(e[1], e[1])
         return {"exp": math.exp, "sqrt": math.sqrt, "log": math.log, "log10": math.log10}[f](*a)
     if k == "bin":
         l, r = feval(e[2], env), feval(e[3], env)
-        return {"+": l + r, "-": l - r, "*": l * r, "/": l / r}[e[1]]
+        if e[1] == "/":
+            return ceval._cdiv(l, r)
+        return {"+": l + r, "-": l - r, "*": l * r}[e[1]]
     raise ValueError(e)
 
 
@@ -195,8 +198,10 @@ def gen_expr(rng, depth):
     if depth == 0 or r < 0.25:
         c = rng.random()
         if c < 0.4:
-            v = rng.choice([2.0, 1.5, 3, 0.5, 6.77, 1e2, 3.92, 10])
-            txt = rng.choice([f"{v}", f"{v}d0", f"{float(v):.3e}".replace("e", "d"), f"{float(v):.2e}"])
+            v = rng.choice([2.0, 1.5, 3, 0.5, 6.77, 1e2, 3.92, 10, 1, 2, 7])
+            txt = rng.choice([f"{v}", f"{v}d0", f"{float(v):.3e}".replace("e", "d"), f"{float(v):.2e}", f"{v}d0", f"{v}d+00", f"{v}d-0"]
+                             if isinstance(v, int) else
+                             [f"{v}", f"{v}d0", f"{float(v):.3e}".replace("e", "d"), f"{float(v):.2e}"])
             if rng.random() < 0.2:
                 txt = "-" + txt
             return txt
@@ -205,7 +210,10 @@ def gen_expr(rng, depth):
         return f"n(idx_{rng.choice(list(SPECIES))})"
     if r < 0.45:
         op = rng.choice(["+", "-", "*", "/", "*", "+"])
-        return f"{gen_expr(rng, depth - 1)}{op}{gen_expr(rng, depth - 1)}"
+        right = gen_expr(rng, depth - 1)
+        if op in "-/" and rng.random() < 0.5 and not re.fullmatch(r"[\w.]+", right):
+            right = f"({right})"        # a parenthesised right operand of a non-associative operator
+        return f"{gen_expr(rng, depth - 1)}{op}{right}"
     if r < 0.62:
         base = gen_expr(rng, depth - 1)
         if not re.fullmatch(r"[\w.]+|-?[\d.]+(d-?\d+)?", base):
@@ -302,7 +310,9 @@ def run(argv):
     chk.prove()
     rng = chk.rng
     exprs = ["2**3**2", "-2.0**2", "Tgas**2**0.5", "3.0*-2.0**2", "n(idx_H2)*2.0", "n(idx_E)+1.0", "n(idx_H)*n(idx_Hp)",   # finding witnesses first
-             "3.92d-13*invTe**0.6353d0", "exp(-32.7d0+13.5d0*lnTe)", "1.d0/(1.d0+Tgas)", "sqrt(Tgas)*T32**(-0.5)"]
+             "3.92d-13*invTe**0.6353d0", "exp(-32.7d0+13.5d0*lnTe)", "1.d0/(1.d0+Tgas)", "sqrt(Tgas)*T32**(-0.5)",
+             "Tgas**(1d0/3d0)", "2d0/3d0*Te", "1d0/2d0", "(3d0/4d0)*Tgas**(5d-1)", "7d0/2d0+1d1/4d0",
+             "1.2d-8/(Tgas/3.d2)", "Te/(T32/invTe)", "2.0/(Tgas/300.0)/(Te/2.0)", "Tgas-(Te-T32)", "Tgas/(Te*T32)", "Tgas-(Te+T32)"]
     for f in [REPO / "tests/data/primordial.krome", REPO / "naunet/examples/primordial/primordial.krome",
               REPO / "naunet/examples/deuterium/deuterium.krome", REPO / "tests/data/minimal.krome"]:
         if f.exists():
@@ -319,7 +329,7 @@ def run(argv):
     KROMEReaction.initialize()
     KROMEReaction.reacformat = "idx,r,p,rate"
     for n, fx in enumerate(exprs):
-        bundled = 11 <= n < nb
+        bundled = 22 <= n < nb
         try:
             with silenced():
                 if "," in fx:
